@@ -18,7 +18,7 @@ def check(ctx, rep):
     A.rule_loop(m, rep, 'R3', liveness=True)
     # the loop may end early on the sticky stop flag only once everything accepted has been taken out of the queue
     from .common import KeepOnly
-    keep = KeepOnly(rep, ('/flag-exit-only-when-drained',), 'R3f')
+    keep = KeepOnly(rep, ('/flag-exit-only-when-drained', '/flag-starts-false'), 'R3f')
     B.rule_run_exit(m, keep, B.rule_stop(m, keep))
     A.rule_task_closure(m, rep, 'R4')
     B.rule_handle_drop(m, rep, 'R5')
